@@ -468,7 +468,11 @@ def single_return_expr(fnode: ast.FunctionDef, ex: Extractor) -> Rat:
         body = body[1:]
     for k, s in enumerate(body):
         if isinstance(s, ast.Assign) and len(s.targets) == 1 and isinstance(s.targets[0], ast.Name):
-            ex.env[s.targets[0].id] = ex.ev(s.value)
+            try:
+                ex.env[s.targets[0].id] = ex.ev(s.value)
+            except Unsupported:
+                # an object-valued local (segment = unit.segment): its uses are resolved by the hooks through the definition
+                ex.env.pop(s.targets[0].id, None)
         elif isinstance(s, ast.AnnAssign) and isinstance(s.target, ast.Name) and s.value is not None:
             ex.env[s.target.id] = ex.ev(s.value)
         elif isinstance(s, ast.Return) and s.value is not None:
